@@ -22,6 +22,8 @@ def mterm_ground(rnd, depth=1):
     if depth <= 0 or r < 0.55:
         return [Sym('a'), rnd.choice(ATOMS)]
     if r < 0.7:
+        if rnd.random() < 0.15:
+            return [Sym('a'), '$py:None']        # a Python value used as a constant (see real.build_term)
         return [Sym('i'), rnd.randrange(3)]
     if r < 0.85:
         return [Sym('f'), rnd.choice(['f', 'g'])] + [mterm_ground(rnd, depth - 1) for _ in range(rnd.randint(1, 2))]
